@@ -488,6 +488,9 @@ type c19Req struct {
 	Cookie string `json:"cookie_header,omitempty"`
 	Body   string `json:"body,omitempty"`
 	CType  string `json:"content_type,omitempty"`
+	// Extra request headers ("Name: value"); the peer address alone decides "comes
+	// from a loopback address", whatever a client claims in forwarding headers
+	Extra []string `json:"extra_headers,omitempty"`
 }
 
 func c19Short(s string, n int) string {
@@ -516,6 +519,11 @@ func (in *c19Inst) do(handler http.Handler, q c19Req) (out c19Out) {
 	}
 	if q.CType != "" {
 		req.Header.Set("Content-Type", q.CType)
+	}
+	for _, h := range q.Extra {
+		if k, v, ok := strings.Cut(h, ": "); ok {
+			req.Header.Set(k, v)
+		}
 	}
 	rec := httptest.NewRecorder()
 	in.ran = 0
@@ -1347,6 +1355,15 @@ func c19RandRemotes(c *vk.Case) {
 			hdr, ckClass = ck.Name+"="+fk.Value, "minted-other-instance"
 		}
 		q := c19Req{Method: vk.Pick(r, c19Methods), Target: vk.Pick(r, c19Paths), Remote: addr, Cookie: hdr}
+		if r.Chance(1, 3) {
+			// a client may claim anything in forwarding headers: only the peer address counts
+			claim := vk.Pick(r, []string{"127.0.0.1", "::1", "127.0.0.1, 8.8.8.8", "localhost", "[::1]:80"})
+			q.Extra = []string{vk.Pick(r, []string{"X-Forwarded-For", "X-Real-Ip", "X-Forwarded-Host", "Forwarded", "X-Client-Ip", "Host"}) + ": " + claim}
+			if strings.HasPrefix(q.Extra[0], "Forwarded:") {
+				q.Extra[0] = "Forwarded: for=" + claim
+			}
+			c.Obs("requests_with_forwarding_headers", 1)
+		}
 		out := in.do(in.prot, q)
 		in.judge(q, out, class, ckClass, loopback, session)
 		c.Obs("random_remotes", 1)
